@@ -61,6 +61,9 @@ def run_trajectory(spec, monitors, probes=("days",), partition=None, controller=
             # keep memory bounded: monitors only need the previous record
             n.records.clear()
 
+        reactive = [dict(r) for r in (spec.get("reactive") or [])]
+        if reactive:
+            node.pre_day_hooks.append(make_reactive_hook(reactive, res["faults"]))
         # extra hooks observe the state right after the daily solution, before the controller (inside on_day) acts
         for h in extra_day_hooks:
             node.day_hooks.append(h)
@@ -111,6 +114,110 @@ def run_trajectory(spec, monitors, probes=("days",), partition=None, controller=
             res["reason"] = sig
             res["exc"] = e
     return res
+
+
+REACTIVE_TRIGGERS = ("season_end", "season_end_ponded", "season_start", "pond_nearly_empty", "early_senescence", "canopy_below_initial_size",
+                     "top_soil_saturated", "root_zone_waterlogged")
+REACTIVE_ACTIONS = ("storm", "wet_spell", "dry", "et0_spike", "et0_floor")
+
+
+def _will_grow_today(model):
+    """independent statement of the model's in-season rule, from the clock and the condition flags at the start of the day"""
+    c = model._clock_struct
+    cond = model._init_cond
+    k = int(c.season_counter)
+    if k < 0:
+        return False
+    cur = c.step_start_time
+    return bool(c.planting_dates[k] <= cur and c.harvest_dates[k] > cur and not cond.crop_mature and not cond.crop_dead)
+
+
+def make_reactive_hook(reactive, faults):
+    """State-triggered weather faults.  Each entry {when, action, mag, len, delay, max_fires} is evaluated at the start of every
+    day on the state the model shows then; when it fires the world rewrites the rain / reference-ET cells of the days
+    [t+delay, t+delay+len) of the model's own weather array (never a past day, never a temperature: the thermal calendar of a
+    season is computed from the temperatures at its start).  The rule, not the day, is part of the case, so a replay fires at the
+    same instants as long as the code under test behaves the same."""
+    import numpy as np
+    for r in reactive:
+        r["_fired"] = 0
+        r["_prev"] = None
+
+    def hook(node, t):
+        m = node.model
+        cond = m._init_cond
+        W = m._weather
+        n = len(W)
+        grow_today = _will_grow_today(m)
+        grew_yesterday = bool(cond.growing_season)
+        for r in reactive:
+            if r["_fired"] >= r.get("max_fires", 2):
+                continue
+            when = r["when"]
+            if when == "season_end":
+                cur = grew_yesterday and not grow_today
+            elif when == "season_end_ponded":
+                cur = grew_yesterday and not grow_today and float(cond.surface_storage) > 0
+            elif when == "season_start":
+                cur = grow_today and not grew_yesterday
+            elif when == "pond_nearly_empty":
+                cur = 0 < float(cond.surface_storage) < 6.0
+            elif when == "early_senescence":
+                cur = grow_today and bool(cond.premat_senes)
+            elif when == "canopy_below_initial_size":
+                k = int(m._clock_struct.season_counter)
+                cur = grow_today and k >= 0 and float(cond.cc0_adj) < float(m._param_struct.Seasonal_Crop_List[k].CC0) - 1e-12
+            elif when == "top_soil_saturated":
+                prof = m._param_struct.Soil.Profile
+                cur = bool(cond.th[0] >= prof.th_s[0] - 1e-9)
+            elif when == "root_zone_waterlogged":
+                cur = grow_today and int(cond.aer_days) > 0
+            else:
+                raise ValueError(when)
+            edge = cur and not r["_prev"]
+            r["_prev"] = cur
+            if not edge:
+                continue
+            a = t + int(r.get("delay", 0))
+            b = min(n, a + int(r.get("len", 1)))
+            if a >= n:
+                continue
+            act = r["action"]
+            for i in range(a, b):
+                if act in ("storm", "wet_spell"):
+                    W[i][2] = float(r["mag"])
+                elif act == "dry":
+                    W[i][2] = 0.0
+                elif act == "et0_spike":
+                    W[i][3] = float(r["mag"])
+                elif act == "et0_floor":
+                    W[i][3] = 0.1
+                else:
+                    raise ValueError(act)
+            r["_fired"] += 1
+            key = f"reactive:{when}:{act}"
+            faults[key] = faults.get(key, 0) + 1
+    return hook
+
+
+def gen_reactive(rng, n_max=2, triggers=None):
+    out = []
+    for _ in range(rng.randint(1, n_max)):
+        when = rng.choice(triggers or REACTIVE_TRIGGERS)
+        act = rng.choice(["storm", "storm", "wet_spell", "dry", "et0_spike", "et0_floor"])
+        r = {"when": when, "action": act, "delay": rng.choice([0, 0, 0, 1, 2]), "max_fires": rng.choice([1, 2, 4])}
+        if act == "storm":
+            r.update(mag=rng.choice([12.0, 25.0, 40.0, 60.0, 120.0, 250.0]), len=rng.choice([1, 1, 2]))
+        elif act == "wet_spell":
+            r.update(mag=rng.choice([8.0, 15.0, 25.0]), len=rng.choice([5, 12, 30]))
+        elif act == "dry":
+            r.update(mag=0.0, len=rng.choice([10, 30, 60]))
+        elif act == "et0_spike":
+            r.update(mag=rng.choice([8.0, 11.0, 14.0]), len=rng.choice([1, 3, 8]))
+        else:
+            r.update(mag=0.1, len=rng.choice([1, 3, 8]))
+        out.append(r)
+    return out
 
 
 def finish(res):
